@@ -73,7 +73,10 @@ def pad_chart(ch, rng, target_states):
 
 def make_case(seed, dm='lua', size=None):
     rng = random.Random(seed)
-    ch, hist = C.gen_chart(seed, data=True, errors=False)
+    if seed < 0:
+        ch, hist = C.gen_done_chart(-seed)       # done.state family
+    else:
+        ch, hist = C.gen_chart(seed, data=True, errors=False)
     if size: pad_chart(ch, rng, size)
     return ch, hist
 
@@ -185,6 +188,7 @@ def run_cases(chk, tier, n, sizes, tag):
     base = chk.seed * 1000000 + 404
     cases = [('g%d' % i, base + i, None) for i in range(n)]
     cases += [('z%d_%d' % (sz, k), base + 900000 + sz * 10 + k, sz) for sz in sizes for k in range(2)]
+    cases += [('d%d' % i, -(base + 700000 + i), None) for i in range(max(12, n // 4))]
     jobs = [(xbin, dbin, os.path.join(outroot, 'w%d' % (i // 6)), cases[i:i + 6]) for i in range(0, len(cases), 6)]
     recs = []
     for out in common.pmap(work, jobs): recs += out
